@@ -215,8 +215,11 @@ func c13Exec(w *cvxWorld, j *cvxJob) bool {
 			fail("location-scheme", "Location %q: scheme %q, want %q", loc[0], scheme, want.Scheme)
 		}
 		wantHost := want.Host
-		if wantHost == "req" {
+		switch wantHost {
+		case "req":
 			wantHost = cvxReqHost(cs)
+		case "upstream":
+			wantHost = w.upAddr
 		}
 		if !strings.EqualFold(host, wantHost) {
 			fail("location-host", "Location %q: host %q, want %q", loc[0], host, wantHost)
